@@ -30,6 +30,7 @@ import common
 from common import case_rng, fl, fll, f2b, parse_reply, dyadic
 import framework, leandrv
 from framework import Finding
+import c11_measure as cm
 
 PID = "C11"
 MODULE = "MysticVerif.Props.C11"
@@ -67,6 +68,11 @@ THEOREMS = [
     "MysticVerif.C11.star_noBridge",
     "MysticVerif.C11.applied_star_equal",
     "MysticVerif.C11.applied_bridged_pair_not_tied_witness",
+    "MysticVerif.C11.measure_applied_pairs_equal",
+    "MysticVerif.C11.measure_applied_weights_zero",
+    "MysticVerif.C11.impose_measure_applied_exact",
+    "MysticVerif.C11.impose_measure_other_order_witness",
+    "MysticVerif.C11.applied_weight_reweighted_by_older_round_witness",
 ]
 
 ERR = {"ValueError": "value", "TypeError": "type", "IndexError": "index"}
@@ -1802,6 +1808,36 @@ def run_shard(pid, seed, shard, ncases, tier, extra):
             nontrivial += 1
         if len(samples) < 3 and c.get("shape", "").startswith("chain-2"):
             samples.append(case)
+    # ---- product measures: detector -> impose_measure (mapply), solver level (msolver); own PRNG streams
+    for stream, fn, count in (("mapply", lambda r_: cm.mapply_case(r_, hist), (extra or {}).get("nmapply", 0)),
+                              ("msolver", lambda r_: cm.msolver_case(r_, hist, big=(tier == "thorough")), (extra or {}).get("nmsolver", 0))):
+        todo = list(range(count)) if only in (None, stream) else []
+        if isinstance(only, (list, tuple)) and only[1] == stream:
+            todo = [only[2]]
+        mcases = []; mlines = []
+        for k in todo:
+            rng = case_rng(PID + "/" + stream, seed, shard, k)
+            c = fn(rng)
+            c["id"] = {"stream": stream, "seed": seed, "shard": shard, "k": k, "tier": tier}
+            mcases.append(c); mlines += [p_["line"] for p_ in c["probes"]]
+        mreplies = leandrv.run_driver(mlines) if mlines else []
+        pos = 0
+        for c in mcases:
+            reps = mreplies[pos:pos + len(c["probes"])]; pos += len(c["probes"])
+            evaluations += 1
+            lines += [p_["line"] for p_ in c["probes"]]
+            case = {"id": c["id"], "args": c["args"]}
+            bump(hist, c["tag"])
+            if c.get("nontrivial"):
+                nontrivial += 1
+            for key, what in c["findings"]:
+                add("monitor", key, what, case)
+            cm.judge_probes(c, reps, add, hist, case)
+            if c.get("reports"):
+                looplines.append("C11 loop (n %d) (mask ()) (reports (%s))" % (c["universe"], " ".join(ints(r) for r in c["reports"])))
+                loopcases.append((c, case))
+            if len(samples) < 5 and stream == "msolver" and c.get("nontrivial") and not any(s_.get("id", {}).get("stream") == "msolver" for s_ in samples if isinstance(s_.get("id"), dict)):
+                samples.append({"id": c["id"], "args": {k_: v_ for k_, v_ in c["args"].items() if k_ not in ("events",)}})
     for (c, case), rep in zip(loopcases, leandrv.run_driver(looplines)):
         r = parse_reply(rep)
         lines.append("loop")
@@ -1878,19 +1914,38 @@ def witnesses():
         key = "apply/pair-not-equal/connected-groups-not-merged" if set(bad) <= py_untied(order) else "apply/pair-not-equal"
         out.append(Finding("monitor", key, "collapse_as reported the path %r (iteration order); impose_as(pairs, False) turned %r into %r: x[%d] != x[%d]" % (
             order, x, y, bad[0][0], bad[0][1]), case))
+    # F27: measure collapses of two rounds composed as Collapse() does (new round OUTSIDE the old one): round 1 collapses
+    # the position pair (0,1), round 2 the weight index 0 (= the key of that pair's group)
+    from mystic import tools as to
+    npts = (3,)
+    c1 = cn.impose_measure(npts, [{0: {(0, 1)}}], [])(lambda v: v)
+    c2 = to.chain(cn.impose_measure(npts, [], [{0: {0}}]))(c1)
+    x = [0.0, 0.5, 0.5, 2.0, 2.0, 6.0]
+    y = [float(v) for v in c2(list(x))]
+    rounds = [{"tr": [(0, [(0, 1)])], "nw": []}, {"tr": [], "nw": [(0, [0])]}]
+    line = cm.measure_line(npts, rounds, x)
+    rep = leandrv.run_driver([line])[0]
+    c = {"probes": [{"line": line, "raw": x, "out": y, "nrounds": 2, "rounds": rounds,
+                     "rels": cm.rels_of_round(rounds[0], 0) + cm.rels_of_round(rounds[1], 1),
+                     "bad": [r_ for r_ in cm.rels_of_round(rounds[0], 0) + cm.rels_of_round(rounds[1], 1) if not cm.mrel_holds(r_, y, npts)],
+                     "prefix": "mapply", "where": "witness: impose_measure result", "npts": npts, "sample": True}]}
+    cm.judge_probes(c, [rep], lambda kind, key, what, case_: out.append(Finding(kind, key, what, case_)), {}, {"id": "witness"})
     return out
 
 
 def main(tier, seed):
     t0 = time.time()
     proof = framework.proof_stage(PID, MODULE, THEOREMS, tier)
-    nshards, per, nsolver, nchain, napply = (16, 1000, 24, 20, 600) if tier == "quick" else (64, 6000, 150, 120, 4000)
+    nshards, per, nsolver, nchain, napply, nmapply, nmsolver = (16, 1000, 24, 20, 600, 300, 12) if tier == "quick" else (
+        64, 6000, 150, 120, 4000, 2000, 60)
     run = framework.run_shards("c11", "run_shard", PID, seed, nshards, per, tier,
-                               extra={"nsolver": nsolver, "nchain": nchain, "napply": napply})
+                               extra={"nsolver": nsolver, "nchain": nchain, "napply": napply, "nmapply": nmapply,
+                                      "nmsolver": nmsolver})
     run["findings"] = witnesses() + run["findings"]
 
     def search_more():
-        r = framework.run_shards("c11", "run_shard", PID, seed + 7919, 32, 600, tier, extra={"nsolver": 10, "nchain": 10, "napply": 400})
+        r = framework.run_shards("c11", "run_shard", PID, seed + 7919, 32, 600, tier,
+                                 extra={"nsolver": 10, "nchain": 10, "napply": 400, "nmapply": 200, "nmsolver": 8})
         return r["findings"]
     rule = ("streams: det = the four real detectors on generated monitors (flat/drifting/tied/near-tolerance/jump/random columns, "
             "dyadic values so that ties with the tolerance are exact, tolerances at a column's change and one ulp either side, 0, "
@@ -1901,9 +1956,19 @@ def main(tier, seed):
             "tied directions; apply = real collapse_as on histories realising a generated non-transitive pair graph (chains with "
             "the shared parameter at every index position, stars, paths, trees, cliques, several components) followed by the real "
             "impose_as(set, False) / tools.connected vs Model/CollapseApply.lean; chain = the four solvers on objectives with a "
-            "non-transitive chain of close optima, collapsed in one step (converge first) or across steps. non-trivial = a "
+            "non-transitive chain of close optima, collapsed in one step (converge first) or across steps; mapply = real "
+            "collapse_weight / collapse_position on product-measure histories (dead weights and close positions of the same "
+            "measure sharing indices: dead index = root of a pair / second member / unrelated; stars, triangles, paths) reported "
+            "in one round or in successive rounds (second detection with the first output as mask), then the real "
+            "impose_measure of every round chained as Collapse() does, vs Model/CollapseMeasure.lean; msolver = DE, DE2, "
+            "Nelder-Mead, Powell on product-measure problems with Or(stop, CollapseWeight, CollapsePosition) (flat objective "
+            "from a designed start, equal or different windows = one round or successive rounds; quadratic objectives with dead "
+            "weights and coincident / chained positions at the optimum), every cost argument after a collapse and the final "
+            "solution checked for weight == 0 / positions equal, the composed constraint recorded (input, output) and compared "
+            "with the model on samples and on every failing input. non-trivial = a "
             "detector case that reports at least one member, an update_mask case that changed a mask, a solver run with at least "
-            "one applied collapse, an apply case with at least two pairs, a chain run that applied a non-transitive chain")
+            "one applied collapse, an apply case with at least two pairs, a chain run that applied a non-transitive chain, a "
+            "mapply case with at least one collapsed weight or pair, a msolver run that applied both a weight and a position collapse")
     tb = ["Lean 4.33 kernel; axioms per theorem listed under coverage.theorems",
           "hand-written model Model/Collapse.lean tied to collapse.py / mask.py by this differential run only",
           "the generator builds every mask together with its model term (no classifier inspects the Python object)",
@@ -1913,13 +1978,23 @@ def main(tier, seed):
           "by stream `apply` only; the offset loop of impose_as (offset False = 0) is not modelled",
           "class keys of failing relations: the harness's transcription py_connected / predict_composed of the unchanged "
           "composition (compared with the Lean model on every `apply` case) decides whether a failure is a recorded class",
+          "measure collapses: Model/CollapseMeasure.lean = C19's Discrete.imposeMeasure (imported) over Clps.connected of the "
+          "pairs in the real iteration order, rounds composed newest-first; tied to constraints.impose_measure / "
+          "abstract_solver.Collapse by streams mapply and msolver (structure exact: NaN pattern, zero pattern of the weights, "
+          "equality of collapsed pairs; values within rel 1e-9 because python's compensated sum / numpy's pairwise sum are not "
+          "the model's sequential sums; bit-exact and toleranced agreements counted separately)",
+          "a failing measure relation is a recorded class only when the Lean model of the unchanged composition breaks the same "
+          "relation on the same recorded input and the mechanism is found on the model's own groups (c11_measure.classify)",
           "collapse_cost / CollapseCost (bounds collapse) is not modelled"]
     assumptions = ["IEEE binary64 - and comparisons agree between Lean Float and numpy float64; numpy max/min/ptp reductions "
                    "propagate NaN (modelled)",
                    "detector results are compared as sets of members (row-major order of numpy.where is not compared)",
                    "monitor histories are lists of equal-length rows of floats; array-valued tolerances only for collapse_at",
                    "stream apply: parameter values are finite and never -0.0 (x[i] += False would turn -0.0 into 0.0); the pairs "
-                   "are iterated in the order list(the_set) gives for the very set object handed to impose_as"]
+                   "are iterated in the order list(the_set) gives for the very set object handed to impose_as",
+                   "streams mapply / msolver: equal factor sizes (the monitor's measure views reshape to (T, len(npts), -1)); "
+                   "the member sets of tools.connected are iterated in insertion order by the model (only the order in which "
+                   "weights are added up depends on it: inside the value tolerance)"]
     return framework.finish(PID, tier, seed, t0, proof, run, rule, tb, assumptions, search_more=search_more)
 
 
